@@ -51,6 +51,8 @@ class WaitForConditionOperationExecutor(OperationExecutor[T]):
     that complete synchronously, avoiding unnecessary execution or suspension.
     """
 
+    runs_user_code = True
+
     def __init__(
         self,
         check: Callable[[T, WaitForConditionCheckContext], T],
